@@ -156,7 +156,7 @@ def gen_burst(rng, exact):
     return pieces
 
 
-def check_raising(ctx, pieces, cuts, raising):
+def check_raising(ctx, pieces, cuts, raising, model_res=None):
     """Oracle only: the dispatcher (_process_message) raises for the deliveries numbered in `raising`; every frame must
     still be handed over exactly once and in order (added after seeded change C10-a: the buffer was advanced only after
     the dispatcher returned, so a frame whose dispatch raised was never consumed)."""
@@ -177,6 +177,10 @@ def check_raising(ctx, pieces, cuts, raising):
         ctx.fail({"pieces": [[k, b.hex()] for k, b in pieces], "cuts": sorted(cuts), "dispatcher_raises_at": sorted(raising)},
                  "dispatcher raised at deliveries %s: delivered %d of %d frames (residual buffer %d bytes)"
                  % (sorted(raising), len(got), len(frames), len(impl[0])), None)
+    if model_res is not None and impl != model_res:
+        ctx.disagree({"pieces": [[k, b.hex()] for k, b in pieces], "cuts": sorted(cuts), "dispatcher_raises_at": sorted(raising)},
+                     [len(impl[0]), len(impl[1]), impl[2]], [len(model_res[0]), len(model_res[1]), model_res[2]],
+                     "reader-with-raising-dispatcher")
 
 
 def plan(ctx):
@@ -234,6 +238,7 @@ def run(ctx):
     for (p, c), mo in zip(jobs, model_out):
         check(ctx, p, c, mo)
     rng = ctx.rng
+    rjobs = []
     for _ in range(ctx.scale(40, 400)):
         pieces = gen_stream(rng, False, junk=0.1)
         nf = sum(1 for k, _ in pieces if k == "F")
@@ -243,7 +248,13 @@ def run(ctx):
         raising = {rng.randrange(1, nf + 1)}
         cuts = rng.sample(range(1, L), min(rng.choice([0, 0, 1, 2, 5]), L - 1)) + [L]
         pieces = pieces + [("F", cc.encode_frame(rng, [cc.cp("0"), []]))]
-        check_raising(ctx, pieces, cuts, raising)
+        rjobs.append((pieces, cuts, raising))
+    # model of the same (Fix/ReaderHooks.v: reader_run_h; C03_raising_dispatcher_loses_nothing)
+    mres = [None] * len(rjobs)
+    if ctx.model:
+        mres = ctx.model.batch([cc.req_reader_raising(cc.split_cuts(b"".join(b for _, b in p), c), r) for p, c, r in rjobs])
+    for (p, c, r), mo in zip(rjobs, mres):
+        check_raising(ctx, p, c, r, mo)
 
 
 def corpus():
